@@ -28,8 +28,60 @@ def find_counterexample(pid, violations, seed, tier="quick"):
         c.update({"reproduced": True, "kind": "search", "search_s": round(dt, 1)})
         return c
     m = re.search(r"NONE evaluations=(\d+) distinct=(\d+)", out)
-    return {"reproduced": False, "kind": "search", "evaluations": int(m.group(1)) if m else 0, "search_s": round(dt, 1),
-            "note": "no failing input found by the native search within its budget; the failed obligations and the verifier's output are in `violations`"}
+    evals = int(m.group(1)) if m else 0
+    fz = None
+    if not os.environ.get("VERIF_NO_FUZZ"):
+        try:
+            fz = fuzz_search(pid, tier, binp)
+        except Exception as e:
+            fz = {"reproduced": False, "kind": "fuzz", "error": str(e)[:200]}
+        if fz and fz.get("reproduced"):
+            fz["random_evaluations_before"] = evals
+            return fz
+    return {"reproduced": False, "kind": "search", "evaluations": evals, "search_s": round(dt, 1), "fuzz": fz,
+            "note": "no failing input found by the native random search nor by the coverage-guided stage within their budgets; the failed obligations and the verifier's output are in `violations`"}
+
+
+FUZZ_SECONDS = {"quick": 45, "thorough": 300}
+
+
+def fuzz_search(pid, tier, binp):
+    """coverage-guided stage (libFuzzer with value profile, replay/fuzz): finds inputs that need specific constants.
+    Only used after a failed/undecided proof when the random search found nothing.  Every artifact is re-checked
+    natively with `replay case` before it is reported."""
+    import shutil, glob, hashlib
+    from concurrent.futures import ThreadPoolExecutor
+    rc, out, se, dt = vlib.run([binp, "checks", pid], timeout=60)
+    names = out.split()
+    if not names:
+        return None
+    fdir = os.path.join(vlib.VERIF, "replay", "fuzz")
+    tgt = os.path.join(vlib.VERIF, ".work", "fuzz-target")
+    os.makedirs(tgt, exist_ok=True)
+    rc, out, se, dt = vlib.run(["cargo", "+nightly", "fuzz", "build", "--fuzz-dir", fdir, "props"], cwd=fdir, env={"CARGO_TARGET_DIR": tgt}, timeout=900)
+    exe = os.path.join(tgt, "x86_64-unknown-linux-gnu", "release", "props")
+    if rc != 0 or not os.path.isfile(exe):
+        return {"reproduced": False, "kind": "fuzz", "error": "fuzz target does not build: " + se[-300:]}
+    work = vlib.workdir()
+    secs = FUZZ_SECONDS.get(tier, 45)
+
+    def one(name):
+        d = os.path.join(work, "fuzz-" + name)
+        shutil.rmtree(d, ignore_errors=True)
+        os.makedirs(os.path.join(d, "corpus"))
+        vlib.run([exe, os.path.join(d, "corpus"), "-max_total_time=%d" % secs, "-max_len=400", "-use_value_profile=1", "-artifact_prefix=" + d + "/", "-print_final_stats=0"],
+                 env={"VERIF_FUZZ_CHECK": name}, timeout=secs + 120)
+        for a in sorted(glob.glob(os.path.join(d, "crash-*"))):
+            tape = open(a, "rb").read()[1:].hex()
+            rc2, o2, e2, _ = vlib.run([binp, "case", name, tape], timeout=120)
+            if rc2 == 1 and "REPRODUCED" in o2:
+                return {"reproduced": True, "kind": "search", "check": name, "tape": tape, "detail": o2.strip()[11:600], "found_by": "libFuzzer (coverage-guided, value profile) %ds" % secs}
+        return None
+    with ThreadPoolExecutor(max_workers=len(names)) as ex:
+        for r in ex.map(one, names):
+            if r:
+                return r
+    return {"reproduced": False, "kind": "fuzz", "seconds": secs, "checks": names}
 
 
 def crosscheck(pid, seed, tier):
